@@ -42,6 +42,10 @@ def _worlds():
     W["C"] = cm.world(S, [{"kind": "ps", "ce": 0, "members": ["p0", "f0"], "level": "V"},
                           {"kind": "ps", "ce": 0, "members": ["p1", "c0"], "level": "V"},
                           {"kind": "ps", "ce": 0, "members": ["p2", "f2"], "level": "V"}], [["e0", "e1", "e2", "c0"]])
+    # E: two composites, a free third envelope (merge chains)
+    W["E"] = cm.world(S, [{"kind": "ps", "ce": 0, "members": ["p0", "f0"], "level": "V"},
+                          {"kind": "own", "sub": "p1", "level": "V"}, {"kind": "own", "sub": "p2", "level": "V"}],
+                      [["e0"], ["e1", "c0"]])
     # D: nothing combined, label states (equal Fock labels), two composites
     W["D"] = cm.world(S, [], [["e0", "e1"], ["e2", "c0"]])
     return W
@@ -82,6 +86,15 @@ HISTORIES = {
         [("merge-env", 0, "e2"), ("combine", 2, ["p2", "p0"])],
         [("merge-env", 0, "e1"), ("trace_out", 2, ["p1", "p0"])],
         [("povm", 1, ["p1"], True), ("merge", 0, 1)],
+    ],
+    # chains of merges: an old handle whose uid was re-assigned by an earlier merge must follow later merges
+    "E": [
+        [("merge-env", 0, "e2"), ("merge", 1, 2)],
+        [("merge-env", 0, "e2"), ("merge", 1, 2), ("cx", 0, "p2", "p0")],
+        [("merge-env", 0, "e2"), ("merge", 1, 2), ("combine", 0, ["p0", "p1"]), ("measure", 3, ["p0"], True, True)],
+        [("rehandle", 0), ("merge", 1, 2), ("cx", 0, "p0", "p1")],
+        [("merge-env", 0, "e2"), ("rehandle", 2), ("merge", 1, 3), ("cx", 0, "p1", "p2"), ("op", "p0")],
+        [("merge", 1, 0), ("merge-env", 2, "e2"), ("combine", 0, ["p2", "c0"])],
     ],
     "C": [
         [("cx", 0, "p0", "p1")],
